@@ -92,7 +92,7 @@ pub fn gen_calls(rng: &mut Rng) -> Vec<WCall> {
     let n = [0usize, 1, 1, 1, 2, 2, 3, 4][rng.below(8)];
     (0..n)
         .map(|_| WCall {
-            kind: *rng.pick(&[WKind::Str, WKind::Str, WKind::Str, WKind::Ln, WKind::Ln, WKind::Ufmt, WKind::Fmt, WKind::Fmt2, WKind::UfmtCh, WKind::FmtCh, WKind::FmtPad, WKind::FmtDbg, WKind::Ch]),
+            kind: *rng.pick(&[WKind::Str, WKind::Str, WKind::Str, WKind::Ln, WKind::Ln, WKind::Ufmt, WKind::Fmt, WKind::Fmt2, WKind::UfmtCh, WKind::FmtCh, WKind::FmtPad, WKind::FmtDbg, WKind::Ch, WKind::ListElem, WKind::Title]),
             text: gen_text(rng),
         })
         .collect()
